@@ -34,6 +34,16 @@ CLAIMED = {
             "Trusted: rustc nightly MIR; writer API transfer functions in rules/linestate.py; run-time strings "
             "assumed non-empty without trailing blank; BLANK_EXEMPT table. Known findings listed.",
             "DESIGN.md §4 C09"),
+    "C12": ("type-resolved call-site analysis: hash-iteration taint with idiom discharge, nondeterminism-source scan, "
+            "control dependence of generated-file writes on filesystem queries",
+            "Decides run-to-run determinism through its only sources: every HashMap/HashSet iteration in the closure "
+            "of all output-producing entry points (1200+ functions) is sorted, order-insensitive, or individually "
+            "reviewed with a machine-checked precondition; no clock/pid/random/env/thread/cwd source is reachable "
+            "(one reviewed debug switch); read_dir results are sorted; generated-file writes are not "
+            "control-dependent on the previous state of the output directory.",
+            "Trusted: rustc nightly callee resolution; #![forbid(unsafe_code)] (no address-dependent behaviour); "
+            "std HashMap/HashSet are the only randomly ordered containers in use; REVIEWED tables in rules/c12.py.",
+            "DESIGN.md §4 C12"),
 }
 
 NOT_APPLICABLE = {
